@@ -89,19 +89,27 @@ theorem store_core_unique {ops₁ ops₂ : List Op} {s₁ s₂ : Store} (h : ops
 
 /-! ## Bool checkers (for the concrete examples) -/
 
-def wfB (ops : List Op) : Bool :=
-  decide (StrictIds ops) && decide (RefsSmaller ops) &&
-  ops.all (fun x => ops.all (fun y => !(x.obj == y.obj) || x.key.isMap == y.key.isMap)) &&
-  ops.all (fun x => !x.insert || (!x.key.isMap && !x.isDel)) &&
-  ops.all (fun x => x.insert || !(x.key == .head)) &&
-  ops.all (fun x => x.insert || (match x.key with | .elem e => e.lt x.id | _ => true))
+theorem strictIdsB_sound : ∀ {ops : List Op}, strictIdsB ops = true → StrictIds ops
+  | [], _ => List.Pairwise.nil
+  | x :: xs, h => by
+    simp only [strictIdsB, Bool.and_eq_true, List.all_eq_true, Bool.not_eq_eq_eq_not, Bool.not_true,
+      beq_eq_false_iff_ne, ne_eq] at h
+    exact List.Pairwise.cons h.1 (strictIdsB_sound h.2)
+
+theorem refsSmallerB_sound {ops : List Op} (h : refsSmallerB ops = true) : RefsSmaller ops := by
+  unfold refsSmallerB at h
+  simp only [List.all_eq_true, Bool.or_eq_true, Bool.not_eq_eq_eq_not, Bool.not_true] at h
+  intro o ho hi
+  rcases h o ho with h | h
+  · rw [hi] at h; cases h
+  · exact h
 
 theorem wfB_sound {ops : List Op} (h : wfB ops = true) : WF ops := by
   unfold wfB at h
-  simp only [Bool.and_eq_true, decide_eq_true_eq, List.all_eq_true, Bool.or_eq_true,
+  simp only [Bool.and_eq_true, List.all_eq_true, Bool.or_eq_true,
     Bool.not_eq_eq_eq_not, Bool.not_true, beq_iff_eq, beq_eq_false_iff_ne, ne_eq] at h
   obtain ⟨⟨⟨⟨⟨h1, h2⟩, h3⟩, h4⟩, h5⟩, h6⟩ := h
-  refine ⟨h1, h2, ?_, ?_, ?_, ?_⟩
+  refine ⟨strictIdsB_sound h1, refsSmallerB_sound h2, ?_, ?_, ?_, ?_⟩
   · intro x hx y hy ho
     rcases h3 x hx y hy with h | h
     · exact absurd ho h
@@ -119,13 +127,6 @@ theorem wfB_sound {ops : List Op} (h : wfB ops = true) : WF ops := by
     · rw [hi] at h; cases h
     · rw [he] at h; exact h
 
-def freshB (ops : List Op) (N : Op) : Bool :=
-  (ops ++ [N]).all (fun x => !x.pred.contains N.id) &&
-  (ops ++ [N]).all (fun x => !(x.key == .elem N.id)) &&
-  (match N.key with
-   | .elem e => (rgaOrder ops N.obj).any (fun c => c.id == e)
-   | _ => true)
-
 theorem freshB_sound {ops : List Op} {N : Op} (h : freshB ops N = true) : Fresh ops N := by
   unfold freshB at h
   simp only [Bool.and_eq_true, List.all_eq_true, Bool.not_eq_eq_eq_not, Bool.not_true,
@@ -139,11 +140,6 @@ theorem freshB_sound {ops : List Op} {N : Op} (h : freshB ops N = true) : Fresh 
     rw [he] at h3
     simp only [List.any_eq_true, beq_iff_eq] at h3
     exact h3
-
-/-- every prefix is well formed and every op is fresh with respect to the ops before it -/
-def admissibleB (ops : List Op) : Bool :=
-  (List.range ops.length).all (fun i => wfB (ops.take (i + 1)) &&
-    (match ops[i]? with | some N => freshB (ops.take i) N | none => false))
 
 theorem admissibleB_snoc {ops : List Op} {N : Op} (h : admissibleB (ops ++ [N]) = true) :
     admissibleB ops = true ∧ wfB (ops ++ [N]) = true ∧ freshB ops N = true := by
